@@ -1,4 +1,5 @@
 """C03 + C04 share one generated program (same instances, same values); evidence is split."""
+import sys
 from fractions import Fraction
 from math import gcd
 
@@ -6,6 +7,9 @@ from hypothesis import strategies as st
 
 from .. import core, hyp, reps
 from ..valrun import ValueRun
+
+if hasattr(sys, "set_int_max_str_digits"):
+    sys.set_int_max_str_digits(20000)       # long double factors such as 10^4932 are printed as decimal literals
 
 HEADER = '''#include "au/au.hh"
 #include "au/units/meters.hh"
@@ -133,8 +137,14 @@ def build_instances(ctx):
                 picked += 1
     # floating instances
     for rep in reps.FLOAT_REPS:
-        for n, d in FLOAT_FACTORS:
+        dig, emax, emin, edenorm = reps.FLT[rep]
+        p10 = len(str(2 ** emax)) - 1          # largest power of ten below max(rep)
+        # factors next to the limits of the rep: overflow for |x| above ~1..8; reciprocals of integers at and beyond max(rep) (the latter are applied by multiplication)
+        extreme = [(2 ** (emax - 1), 1), (3 * 2 ** (emax - 3), 1), (10 ** p10, 1), (10 ** (p10 - 1), 7), (1, 2 ** (emax - 1)), (1, 10 ** p10), (1, 10 ** (p10 + 2)), (1, 2 ** (emax + 3)), (3, 2 ** (emax + 2))]
+        for n, d in FLOAT_FACTORS + extreme:
             f = Fraction(n, d)
+            if rep == "long double" and max(n, d) > reps.rmax(rep):
+                continue        # the harness passes the factor as n.0L / d.0L: both parts must be finite long doubles
             if f <= reps.rmax(rep) and f >= reps.fmin_denorm(rep) * 4:
                 out.append({"rep": rep, "n": n, "d": d, "id": "f%d" % len(out), "src": "grid"})
     return out
